@@ -32,6 +32,10 @@ func (sa *StructAccessor) Set(key string, value interface{}) error {
 
 	// set directly if type matches
 	if newVal.Kind() == field.Kind() {
+		// The kind alone does not make the value assignable (eg. []interface{} to []string).
+		if !newVal.Type().AssignableTo(field.Type()) {
+			return fmt.Errorf("tried to set field %s (%s) to a %s value", key, field.Type().String(), newVal.Type().String())
+		}
 		field.Set(newVal)
 		return nil
 	}
